@@ -717,6 +717,8 @@ def key_compatible(item, kind):
         return isinstance(item, SymObj)
     if kind.ty in ('bytes', 'str', 'real', 'bool'):
         return t == kind.ty
+    if kind.ty == 'pair':
+        return isinstance(item, tuple) and len(item) == len(kind.inner) and all(key_compatible(x, k) for x, k in zip(item, kind.inner))
     return False
 
 
@@ -1019,6 +1021,30 @@ def symmap_items(ip, m):
     return SymSeq(arr, keys.n, kind, ItemFacts(m.dom, m.val, keys.facts, arr, pk))
 
 
+class ValueFacts:
+    """V = list(d.values()): V[i] = d[K[i]] for an enumeration K of exactly the keys, each once (pointwise-instantiated contract)"""
+    def __init__(self, m_val, kfacts, arr):
+        self.val, self.kfacts, self.arr = m_val, kfacts, arr
+
+    def on_read(self, ip, seq, i, el):
+        self.kfacts.on_read(ip, None, i, None)
+        ip.ctx.assume(z3.Select(self.arr, i) == z3.Select(self.val, z3.Select(self.kfacts.arr, i)))
+
+    def witness(self, ip, key_t):
+        j = self.kfacts.witness(ip, key_t)
+        ip.ctx.assume(z3.Implies(z3.And(j >= 0, j < self.kfacts.n), z3.Select(self.arr, j) == z3.Select(self.val, key_t)))
+        return j
+
+    def key_at(self, i):
+        return z3.Select(self.kfacts.arr, i)
+
+
+def symmap_values(ip, m):
+    keys = symmap_keys(ip, m)
+    arr = ip.ctx.fresh('values', z3.ArraySort(IntSort, m.vkind.sort()))
+    return SymSeq(arr, keys.n, m.vkind, ValueFacts(m.val, keys.facts, arr))
+
+
 def dictview_list(ip, view):
     d = view.d
     if isinstance(d, PyDict):
@@ -1027,6 +1053,8 @@ def dictview_list(ip, view):
         return symmap_keys(ip, d)
     if view.kind == 'items':
         return symmap_items(ip, d)
+    if view.kind == 'values' and isinstance(d, SymMap):
+        return symmap_values(ip, d)
     hk = ip.hooks.get('dictview_list')
     if hk is not None:
         return hk(ip, view)
